@@ -133,7 +133,10 @@ class HashFileDB(ObjectDB):
 
             try:
                 if verify:
-                    self.check(o, check_hash=True)
+                    # NOTE: not self.check(), LocalHashFileDB trusts
+                    # write-protected files without hashing them and a
+                    # hardlink comes with the mode of its source.
+                    HashFileDB.check(self, o, check_hash=True)
                 self.protect(cache_path)
             except ObjectFormatError as exc:
                 # the object did not match its oid and was removed by check()
